@@ -726,10 +726,18 @@ pub trait CaseObj: Send + Sync {
     fn escape(&self) -> Option<(usize, usize, &'static str)> {
         None
     }
+    /// For structures whose Drop records (mark, checksum): what the drop of *this loaded structure*
+    /// must record (computed from the structure as loaded, not from what was stored).
+    fn drop_probe(&self) -> Option<(u64, u64)> {
+        None
+    }
 }
 
 pub struct FullObj<D: Doc>(pub D);
 impl<D: Doc + Send + Sync> CaseObj for FullObj<D> {
+    fn drop_probe(&self) -> Option<(u64, u64)> {
+        Doc::drop_probe(&self.0)
+    }
     fn canon(&self, out: &mut Vec<u8>) {
         self.0.canon(out)
     }
@@ -782,7 +790,7 @@ pub trait Doc: Serialize + Deserialize + Canon + Gen + Send + Sync + 'static {
 }
 
 macro_rules! doc_impl {
-    ($name:ident, $t:ty $(, variants = $vf:expr)? $(, escape = $ef:expr)? $(, probe = $pf:expr)?) => {
+    ($name:ident, $t:ty $(, variants = $vf:expr)? $(, escape = $ef:expr)? $(, probe = $pf:expr, epsprobe = $epf:expr)?) => {
         impl CaseObj for EpsObj<$t> {
             fn canon(&self, out: &mut Vec<u8>) {
                 let d: &DeserType<'static, $t> = &self.0;
@@ -804,6 +812,10 @@ macro_rules! doc_impl {
             }
             $(fn escape(&self) -> Option<(usize, usize, &'static str)> {
                 let f: fn(&MemCase<DeserType<'static, $t>>) -> Option<(usize, usize, &'static str)> = $ef;
+                f(&self.0)
+            })?
+            $(fn drop_probe(&self) -> Option<(u64, u64)> {
+                let f: fn(&DeserType<'static, $t>) -> Option<(u64, u64)> = $epf;
                 f(&self.0)
             })?
         }
@@ -934,6 +946,6 @@ registry! {
     PaddedVecU64: Padded<Vec<u64>>;
     PaddedZ32: Padded<Vec<Z32>>;
     PaddedStr: Padded<String>;
-    DropProbeD: DropProbe<Vec<u64>> { probe = |v| Some((v.mark, probe_sum(&v.data))) };
+    DropProbeD: DropProbe<Vec<u64>> { probe = |v| Some((v.mark, probe_sum(&v.data))), epsprobe = |v| Some((v.mark, probe_sum(v.data))) };
 }
 
